@@ -30,30 +30,29 @@ Qed.
 Definition slot_clause (o : okst) (sl : slot) : Prop :=
   let o' := ok_upd o sl in
   (* the status of n disappears while a free-running watcher holds the lock *)
-  (forall n, act sl = ALapse n -> lock_running (o_held o') (o_active o) = true -> memn n (o_alive o) = true ->
+  (forall n, lapse_of (act sl) = Some n -> lock_running (o_held o') (o_active o) = true -> memn n (o_alive o) = true ->
      down_seen (o_wnode o') (seen sl) n) /\
   (* a free-running watcher takes the lock while the status of n is absent *)
-  ((forall n, act sl <> ALapse n) -> ok_takes o sl = true ->
+  (lapse_of (act sl) = None -> ok_takes o sl = true ->
      forall n, In n (o_nodes o') -> memn n (o_alive o') = false -> down_seen (o_wnode o') (seen sl) n).
 
 Lemma ok_check_spec : forall o sl, ok_check o sl = true <-> slot_clause o sl.
 Proof.
   intros o sl. unfold ok_check, slot_clause. cbv zeta.
-  destruct (act sl) eqn:A;
-    try (split;
-         [intro H; split; [intros n0 E; discriminate|];
-          intros _ T n0 Hn Ha; rewrite T in H; rewrite forallb_forall in H;
-          apply seen_down_spec; apply H; unfold ok_absent; apply filter_In; split; [exact Hn|rewrite Ha; reflexivity]
-         |intros [_ H]; destruct (ok_takes o sl) eqn:T; [|reflexivity];
-          apply forallb_forall; intros n0 Hn; apply seen_down_spec; unfold ok_absent in Hn; apply filter_In in Hn;
-          destruct Hn as [Hn Ha]; apply negb_true_iff in Ha; apply H; auto; intros n1 E; discriminate]).
-  (* ALapse *)
-  split.
-  - intro H. split.
-    + intros n0 E L M. inversion E; subst n0. rewrite L, M in H. simpl in H. apply seen_down_spec. exact H.
-    + intros N. exfalso. apply (N n). reflexivity.
-  - intros [H _]. destruct (lock_running _ _ && memn n (o_alive o)) eqn:C; [|reflexivity].
-    apply andb_true_iff in C. destruct C as [L M]. apply seen_down_spec. apply H; auto.
+  destruct (lapse_of (act sl)) as [n|] eqn:A.
+  - split.
+    + intro H. split.
+      * intros n0 E L M. inversion E; subst n0. rewrite L, M in H. simpl in H. apply seen_down_spec. exact H.
+      * intros N. discriminate.
+    + intros [H _]. destruct (lock_running _ _ && memn n (o_alive o)) eqn:C; [|reflexivity].
+      apply andb_true_iff in C. destruct C as [L M]. apply seen_down_spec. apply H; auto.
+  - split.
+    + intro H. split; [intros n0 E; discriminate|].
+      intros _ T n0 Hn Ha. rewrite T in H. rewrite forallb_forall in H.
+      apply seen_down_spec. apply H. unfold ok_absent. apply filter_In. split; [exact Hn|rewrite Ha; reflexivity].
+    + intros [_ H]. destruct (ok_takes o sl) eqn:T; [|reflexivity].
+      apply forallb_forall. intros n0 Hn. apply seen_down_spec. unfold ok_absent in Hn. apply filter_In in Hn.
+      destruct Hn as [Hn Ha]. apply negb_true_iff in Ha. apply H; auto.
 Qed.
 
 Lemma ok_step_good : forall o sl, o_good (ok_step o sl) = o_good o && ok_check o sl.
@@ -133,7 +132,7 @@ Qed.
 (* ---- ok on the model's own output: a small exhaustive sweep kept as a sanity
    example (the statement for ALL histories is GenProofs.ok_gen) ---- *)
 Definition alphabet : list action :=
-  [AHeartbeat 0; ALapse 0; ALapse 1; ALapseFail 0; ACreate 0; AReport 0 true true;
+  [AHeartbeat 0; ALapse 0; ALapse 1; ALapseFail 0; ALapseHb 0; ACreate 0; AReport 0 true true;
    AStart; AStartHeld; ARelease 0; ARelease 1; AStop 0; AStop 1; AExpire 0].
 Definition setup : list action :=
   [AAddNode 0; AAddNode 1; ACreate 0; ACreate 1; AReport 0 true true; AReport 1 true false].
